@@ -453,4 +453,34 @@ theorem head_has_application_headers (w : World) (tb : Tables) (st : St) (status
   · exact rwChooseWriter_head w _ _ _ k h0 hk (rwPrepareMeta_pre tb _ status _ _ k h0 hk p0)
       (rwPrepareMeta_respMeta tb _ status _ _)
 
+
+theorem Hdr.values_setRaw_same (h : Hdr) (a : Bytes) (vs : List Bytes) (b : Bytes) (ha : a = canonKey b) :
+    (Hdr.setRaw h a vs).values b = vs := by
+  subst ha
+  unfold Hdr.setRaw Hdr.values
+  rw [List.find?_append]
+  have : (h.filter (fun e => e.1 != canonKey b)).find? (fun e => e.1 == canonKey b) = none := by
+    rw [List.find?_eq_none]
+    intro e he
+    have := (List.mem_filter.mp he).2
+    simpa using this
+  simp [this]
+
+/-- What a run of `Header[k] = vs` assignments with distinct keys leaves under one of those keys. -/
+theorem foldl_setRaw_values_mem (ts : Hdr) (h : Hdr) (k : Bytes) (t : Bytes × List Bytes)
+    (hd : ts.Pairwise (fun a b => a.1 ≠ b.1)) (ht : t ∈ ts) (hk : t.1 = canonKey k) :
+    (ts.foldl (fun acc x => Hdr.setRaw acc x.1 x.2) h).values k = t.2 := by
+  induction ts generalizing h with
+  | nil => cases ht
+  | cons t0 rest ih =>
+    simp only [List.foldl_cons]
+    rw [List.pairwise_cons] at hd
+    rcases List.mem_cons.mp ht with rfl | hin
+    · have := foldl_setRaw_values id rest (Hdr.setRaw h t.1 t.2) k (fun x hx => by
+        simp only [id]; rw [← hk]; exact fun h' => hd.1 x hx h'.symm)
+      simp only [id] at this
+      rw [this, Hdr.values_setRaw_same _ _ _ _ hk]
+    · exact ih _ hd.2 hin
+
+
 end Vanguard
